@@ -1215,8 +1215,20 @@ Fixpoint first_bad (n : Z) (T : tab) (tr : list tstep) : Z :=
 Definition model_obs (cf : cfg) (h : list stmt) : list ostep :=
   map (fun t => match t with (_, ok, T) => {| o_ok := ok; o_tab := T; o_cls := [] |} end) (impl_trace cf store0 h).
 
+(* the number of steps up to and including the last one on which the observation breaks the property *)
+Fixpoint last_bad (n : nat) (T : tab) (tr : list tstep) : nat :=
+  match tr with
+  | [] => O
+  | (s, ok, T') :: r =>
+      let m := last_bad (S n) T' r in
+      if Nat.eqb m O then (if step_okb T s ok T' then O else S n) else m
+  end.
+
+(* a configuration of the model that predicts every outcome and table up to and including the last violating
+   step (what comes after it satisfies the property by itself and needs no explanation) *)
 Definition find_cfg (h : list stmt) (os : list ostep) : option cfg :=
-  List.find (fun cf => syncb cf store0 h os) all_cfgs.
+  let n := last_bad O [] (obs_trace h os) in
+  List.find (fun cf => syncb cf store0 (firstn n h) (firstn n os)) all_cfgs.
 
 Definition judge_hist (h : list stmt) (os : list ostep) : sx :=
   if negb (Nat.eqb (List.length h) (List.length os)) then v_bad "step-count" (Lx [])
